@@ -425,6 +425,21 @@ def expand(job):
             if tuple(op) in FINE_OPS and job.get("fine"):
                 stride = 1
             cs = crash_states(dict(state), log, stride)
+            # the entry states the property names whatever the writer does: every entry this run wrote, left empty or as a
+            # truncated prefix (quick: 0, 1, half, the prefixes ending with the first / last inner '}', all but one byte;
+            # thorough: every stride-th byte)
+            old = dict(state)
+            for name, text in new:
+                if old.get(name) == text or not name.endswith(".cache"):
+                    continue
+                if job.get("fine"):
+                    cuts = _lengths(0, len(text) - 1, stride)
+                else:
+                    cuts = {0, 1, len(text) // 2, len(text) - 1, text.find("}") + 1, text.rfind("}", 0, len(text) - 1) + 1}
+                for n in sorted(c for c in cuts if 0 <= c < len(text)):
+                    st2 = dict(new)
+                    st2[name] = text[:n]
+                    cs.setdefault(canon(st2), ("entry-prefix", name, n))
             cs.pop(new, None)
             cs.pop(state, None)
             rec["crash"] = [(k, v) for k, v in cs.items()]
@@ -538,8 +553,11 @@ def replay(v):
         else:
             op = ("run", h[1], h[2], h[3])
             point = h[4]
-            _, _, log = execute(state, op)
-            if point[0] == "effect":
+            new, _, log = execute(state, op)
+            if point[0] == "entry-prefix":
+                st = dict(new)
+                st[point[1]] = st[point[1]][: point[2]]
+            elif point[0] == "effect":
                 st = replay_log(dict(state), log[: point[1]])
             else:
                 # handle ids differ between executions; the handles at risk are matched in
